@@ -178,6 +178,36 @@ func dischargeAll(frs []*FuncResult, toSec int, par int, wantAll bool) {
 	}
 	close(ch)
 	wg.Wait()
+	// second chance for obligations that came back undecided (solver timing under load is not a verdict):
+	// rerun them a few at a time with a longer limit
+	var retry []job
+	for _, j := range jobs {
+		if j.o.Expect == "unsat" && (j.o.Result.Status == "unknown" || j.o.Result.Status == "timeout" || j.o.Result.Status == "error") {
+			retry = append(retry, j)
+		}
+	}
+	if len(retry) > 0 && len(retry) <= 40 {
+		ch2 := make(chan job)
+		var wg2 sync.WaitGroup
+		for i := 0; i < 3; i++ {
+			wg2.Add(1)
+			go func() {
+				defer wg2.Done()
+				for j := range ch2 {
+					first := j.o.Result
+					dischargeOne(j.x, j.o, toSec*3, wantAll)
+					if j.o.Result.Status != "unsat" && j.o.Result.Status != "sat" {
+						j.o.Result = first
+					}
+				}
+			}()
+		}
+		for _, j := range retry {
+			ch2 <- j
+		}
+		close(ch2)
+		wg2.Wait()
+	}
 }
 
 func dischargeOne(x *VC, o *Oblig, toSec int, wantAll bool) {
@@ -193,8 +223,8 @@ func dischargeOne(x *VC, o *Oblig, toSec int, wantAll bool) {
 		gv = x.modelVals
 	}
 	t := toSec
-	if o.Expect == "sat" && t > 5 {
-		t = 5
+	if o.Expect == "sat" && t > 3 {
+		t = 3
 	}
 	o.Result, o.All = runSolvers(script, gv, t, wantAll)
 	if o.ok() {
